@@ -77,35 +77,59 @@ def rule_ladders(ctx, R: str):
   qt = ctx.repo.func(f'{QTENS}:quant_params_to_tflite_type')
   nl = ctx.repo.func(f'{QTENS}:nonlinear_quant_params_to_tflite_type')
   pk = ctx.repo.func(f'{QTENS}:_pack_data')
-  is_bits = lambda e: isinstance(e, ast.Attribute) and e.attr == 'num_bits' or (isinstance(e, ast.Name) and 'bit' in e.id.lower())
-  l_np = extract_ladder(uq, is_bits)
-  l_tf = extract_ladder(qt, is_bits)
-  l_nl = extract_ladder(nl, is_bits)
-  l_pk = extract_ladder(pk, is_bits)
+  # The four functions are RUN for every width by the path interpreter (so a ladder, a table or a dict lookup are
+  # all the same to this rule): which numpy type the data is cast to, which TFLite type annotates it, whether the
+  # bytes are nibble-packed.
+  from sa import absint, consteval  # pylint: disable=g-import-not-at-top
+  from sa.consteval import Ext, Obj  # pylint: disable=g-import-not-at-top
+  it = absint.Interp(ctx.repo, ctx.ev)
+  TT = consteval.schema_enum('TensorType')
+  tt_name = lambda v: next((k for k, x in TT.items() if x == (v.value if isinstance(v, Ext) else v)), None)
   ctx.instance(R, 4)
-  np_bits = {'np.int8': 8, 'np.int16': 16, 'np.int32': 32, 'np.int64': 64}
+
+  def run1(f, args):
+    o = it.outcomes(f, args, copy_args=False)
+    if len(o) == 1 and o[0].kind == 'raise':
+      return 'raise'
+    if len(o) == 1 and o[0].kind == 'return':
+      return o[0].value
+    return absint.Opaque('several outcomes')
+
+  def np_storage(w):
+    seen = []
+    arr = Obj('x:Array', {'astype': _StandIn(lambda a_, k, kind=None: (seen.append(a_[0] if a_ else k.get('dtype')) or 'CAST'), 'c')})
+    r = run1(uq, [arr, Obj(f'{UQT}:IntType', {'num_bits': w, 'signed': True})])
+    if r != 'CAST' or len(seen) != 1 or not isinstance(seen[0], Ext):
+      return None, f'{r!r} / {seen!r}'
+    n = seen[0].name.split('.')[-1]
+    return ({'int8': 8, 'int16': 16, 'int32': 32, 'int64': 64}.get(n), n)
+
+  def packed(w):
+    token = absint.Opaque('DATA')
+    o = it.outcomes(pk, [w, token], copy_args=False)
+    if not o or any(x.kind != 'return' for x in o):
+      return None
+    same = [x.value is token for x in o]
+    return False if all(same) else (True if not any(same) else None)
   rs.exhaustive = True
   for w in range(1, 65):
-    a = ladder_eval(l_np, w)
-    npb = None
-    for k, v in np_bits.items():
-      if k in a:
-        npb = v
-        break
-    t = ladder_eval(l_tf, w)
-    tname = t.split('.')[-1] if t.startswith('return') else None
-    packed = 'return flattened_data' not in ladder_eval(l_pk, w) and ladder_eval(l_pk, w) != 'return ' + pk.pos_params[-1]
+    npb, nptxt = np_storage(w)
+    t = run1(qt, [w])
+    tname = tt_name(t) if not isinstance(t, (str, absint.Opaque)) else None
+    pkd = packed(w)
     ok = True
     msg = ''
-    if tname is None or tname not in oracles.TYPE_BITS:
+    if isinstance(t, absint.Opaque) or pkd is None or (npb is None and 'Opaque' in str(nptxt)):
+      ok, msg = False, f'width {w}: not decided (TFLite type {t!r}, storage {nptxt!r}, packed {pkd!r})'
+    elif tname is None or tname not in oracles.TYPE_BITS:
       ok, msg = False, f'width {w}: no TFLite dtype ({t})'
     elif npb is None:
-      ok, msg = False, f'width {w}: no numpy storage dtype ({a})'
+      ok, msg = False, f'width {w}: no numpy storage dtype ({nptxt})'
     else:
       tb = oracles.TYPE_BITS[tname]
       if tb < w:
         ok, msg = False, f'width {w}: TFLite dtype {tname} is narrower than the values'
-      elif packed:
+      elif pkd:
         if not (tname == 'INT4' and npb == 8):
           ok, msg = False, f'width {w}: data is nibble-packed but annotated {tname} / stored as int{npb}'
       else:
@@ -114,22 +138,25 @@ def rule_ladders(ctx, R: str):
         elif npb != tb:
           ok, msg = False, f'width {w}: stored as int{npb} but annotated {tname} (byte length mismatch)'
     ctx.check(R, ok, qt.node, qt, f'width {w}', msg)
-    # spec anchor points
+  # spec anchor points
   for w, want in ((4, 'INT4'), (8, 'INT8'), (16, 'INT16'), (32, 'INT32'), (64, 'INT64')):
-    got = ladder_eval(l_tf, w).split('.')[-1]
+    t = run1(qt, [w])
+    got = tt_name(t) if not isinstance(t, (str, absint.Opaque)) else repr(t)
     ctx.check(R, got == want, qt.node, qt, f'width {w} -> {want}', f'{w}-bit parameters are annotated {got}, expected {want}')
   for w, want in ((16, 'FLOAT16'), (32, 'FLOAT32')):
-    got = ladder_eval(l_nl, w).split('.')[-1]
+    t = run1(nl, [w])
+    got = tt_name(t) if not isinstance(t, (str, absint.Opaque)) else repr(t)
     ctx.check(R, got == want, nl.node, nl, f'float width {w} -> {want}', f'{w}-bit float parameters are annotated {got}, expected {want}')
   for w in (8, 24, 64):
-    ctx.check(R, ladder_eval(l_nl, w) == 'raise', nl.node, nl, f'float width {w}', f'unsupported float width {w} must be rejected, got {ladder_eval(l_nl, w)}')
+    t = run1(nl, [w])
+    ctx.check(R, t == 'raise', nl.node, nl, f'float width {w}', f'unsupported float width {w} must be rejected, got {t!r}')
   # schema codes are the frozen ones (O6): disagreement = analysis error, not a violation
   from sa import consteval  # pylint: disable=g-import-not-at-top
   codes = consteval.schema_enum('TensorType')
   for k, v in oracles.TENSOR_TYPE.items():
     if codes.get(k) != v:
       raise index.AnalysisError(f'installed schema TensorType.{k}={codes.get(k)} differs from the frozen oracle {v}')
-  ctx.sample(R, {'numpy_ladder': l_np, 'tflite_ladder': l_tf, 'pack_ladder': l_pk})
+  ctx.sample(R, {'widths': '1..64', 'functions': [uq.fq, qt.fq, nl.fq, pk.fq]})
 
 
 # ------------------------------------------------------- exact params equality
@@ -734,6 +761,14 @@ def rule_performer_simulation(ctx, R: str):
   ctx.sample(R, {'plans': list(plans)})
 
 
+def _opcode(builtin):
+  """An OperatorCodeT as the converter writes it: codes that do not fit the old int8 field carry
+  deprecatedBuiltinCode = 127 (PLACEHOLDER_FOR_GREATER_OP_CODES), the others repeat the code there."""
+  from sa.consteval import Ext, Obj  # pylint: disable=g-import-not-at-top
+  v = builtin.value if isinstance(builtin, Ext) else builtin
+  return Obj('x:OperatorCodeT', {'builtinCode': builtin, 'deprecatedBuiltinCode': min(v, 127) if isinstance(v, int) else 0, 'version': 1, 'customCode': None})
+
+
 # ----------------------------------------- graph rewrite simulation (real transformations)
 def _mk_graph(spec):
   """spec = (ops [(label, inputs, outputs)], graph inputs, graph outputs, n tensors) -> (subgraph Obj, model Obj)"""
@@ -1013,7 +1048,7 @@ def rule_pipeline_simulation(ctx, R: str, title: str = None):
       sg = Obj('x:SubGraphT', {'tensors': ts, 'operators': os_, 'inputs': list(gin), 'outputs': list(gout), 'name': b'main'})
       bufs = [Obj('x:BufferT', {'data': None, 'offset': 0, 'size': 0})] + [Obj('x:BufferT', {'data': (f'float-bytes-of-{n}' if c else None), 'offset': 0, 'size': 0}) for n, c in tensors]
       return Obj('x:ModelT', {'subgraphs': [sg], 'buffers': bufs, 'signatureDefs': None,
-                              'operatorCodes': [Obj('x:OperatorCodeT', {'builtinCode': code(KIND[k])}) for k in KINDS]})
+                              'operatorCodes': [_opcode(code(KIND[k])) for k in KINDS]})
     cur = {'k': 0}
 
     def content(k):
@@ -1283,7 +1318,7 @@ def _pipeline_multi(ctx, R, graphs, rules):
                                  'builtinOptions': (Obj('x:Options', dict(op[4])) if len(op) > 4 else None)}) for op in ops]
       sgs.append(Obj('x:SubGraphT', {'tensors': ts, 'operators': os_, 'inputs': list(gin), 'outputs': list(gout), 'name': f'sg{gi}'.encode()}))
     return Obj('x:ModelT', {'subgraphs': sgs, 'buffers': bufs, 'signatureDefs': None,
-                            'operatorCodes': [Obj('x:OperatorCodeT', {'builtinCode': code(KIND[k])}) for k in KINDS]})
+                            'operatorCodes': [_opcode(code(KIND[k])) for k in KINDS]})
   cur = {'k': 0}
 
   def content(n, k):
@@ -1344,6 +1379,12 @@ def _pipeline_multi(ctx, R, graphs, rules):
       block = tables.construct(ctx, common.OPCFG, weight_tensor_config=tables.tensor_config(ctx, num_bits=4, granularity=G['BLOCKWISE'], block_size=2),
                                compute_precision=CP['FLOAT'], explicit_dequantize=True, skip_checks=True)
       store.setdefault(rx, []).append(c11._recipe(rx, opn, MM, block))  # pylint: disable=protected-access
+      continue
+    if cfg == 'srqc':   # static range with per-channel weights
+      G_ = {e.name: e for e in tables.enum(ctx, 'qtyping:QuantGranularity')}
+      srqc = tables.construct(ctx, common.OPCFG, weight_tensor_config=tables.tensor_config(ctx, num_bits=8, granularity=G_['CHANNELWISE']),
+                              activation_tensor_config=tables.tensor_config(ctx, num_bits=8, symmetric=False), compute_precision=CP['INTEGER'])
+      store.setdefault(rx, []).append(c11._recipe(rx, opn, MM, srqc))  # pylint: disable=protected-access
       continue
     store.setdefault(rx, []).append(c11._recipe(rx, opn, MM, {'srq': srq, 'drq': drq, 'wonly': wonly}[cfg]))  # pylint: disable=protected-access
   rm = Obj('recipe_manager:RecipeManager', {'_scope_configs': store})
@@ -1725,6 +1766,8 @@ def rule_shared_constant_pipeline(ctx, R: str):
       continue
     problems = []
     bufs = m.fields['buffers']
+    if bufs and bufs[0].fields['data'] is not None:
+      problems.append('buffer 0 (the empty buffer every activation points at) now holds data')
     by_buffer = {}
     for gi, sg in enumerate(m.fields['subgraphs']):
       T, O = sg.fields['tensors'], sg.fields['operators']
@@ -1784,9 +1827,10 @@ def rule_shared_constant_pipeline(ctx, R: str):
 
 # ------------------------------------------------------- error discipline
 SWALLOW_ALLOWED = {
-    # (function, exception type): why swallowing is the documented behaviour
-    ('recipe_manager:RecipeManager.get_quantization_configs', 'ValueError'): 'a rule whose config the op does not support is skipped (C11: not applicable)',
-    ('utils.tfl_interpreter_utils:get_constant_tensor_names', 'ValueError'): 'tensors the interpreter cannot return (no data) are not constants',
+    # (the ONLY repository call a handler guards, exception type): why swallowing its refusal is the documented behaviour.
+    # Keyed by what is guarded, not by where the handler stands: the handler may live in an extracted helper.
+    ('check_op_quantization_config', 'ValueError'): 'a rule whose config the op does not support does not apply (what resolution then returns is decided by the tables C11.R2 / C13.R6)',
+    ('get_tensor_data', 'ValueError'): 'tensors the interpreter cannot return (no data) are not constants',
 }
 
 
@@ -1814,12 +1858,23 @@ def rule_no_swallowed_errors(ctx, R: str):
         normal_exit = g.exit.id in g.reachable([g.entry.id], blocked={x.id for x in g.nodes if isinstance(getattr(x, 'ast', None), ast.Raise)})
         leaves_loop = any(isinstance(x, (ast.Continue, ast.Break, ast.Return)) for st in h.body for x in ast.walk(st))
         swallows = normal_exit or leaves_loop
-        key = (fq, ty.split('.')[-1])
+        tried = sorted({common.call_name(c) for st in n.body for c in common.calls_in(st)})[:4]
+        # the calls of the try body that lead into repository code which can raise
+        guarded_names = set()
+        for s in cg.sites.get(fq, []):
+          if any(s.node is c for st in n.body for c in common.calls_in(st)) and s.callees:
+            if any(any(isinstance(x, ast.Raise) for x in common.walk_no_nested(ctx.repo.func(sub).node)) for cal_ in s.callees for sub in cg.reachable([cal_.fq])):
+              guarded_names.add(common.call_name(s.node).split('.')[-1])
+        only = next(iter(guarded_names)) if len(guarded_names) == 1 else None
+        key = (only, ty.split('.')[-1])
+        if swallows and only is None and not guarded_names:
+          # no repository callee that raises: e.g. the interpreter's own get_tensor refusing (external)
+          ext = {x.split('.')[-1] for x in tried}
+          key = next(((k, ty.split('.')[-1]) for k in ext if (k, ty.split('.')[-1]) in SWALLOW_ALLOWED), key)
         if swallows and key in SWALLOW_ALLOWED:
           seen_allowed.add(key)
           ctx.check(R, True, h, f, f'{ty}: {SWALLOW_ALLOWED[key]}', '')
           continue
-        tried = sorted({common.call_name(c) for st in n.body for c in common.calls_in(st)})[:4]
         # only handlers around repository code that can refuse (an explicit raise somewhere below the guarded calls, or a registry / function-valued call)
         guarded = False
         for s in cg.sites.get(fq, []):
@@ -1842,6 +1897,9 @@ def rule_no_swallowed_errors(ctx, R: str):
 
 
 # ------------------------------------------------ per-operator sweep (README table)
+from sa.absint import Opaque as absint_Opaque  # pylint: disable=g-import-not-at-top,g-bad-import-order
+
+
 def rule_operator_sweep(ctx, R: str):
   """Every operator of the README coverage table, alone in a minimal graph with
   the operand layout of the TFLite schema (weights, bias, int32 shape / axis /
@@ -1887,6 +1945,8 @@ def rule_operator_sweep(ctx, R: str):
     graphs[k] = unary(k)
   for k in ('ADD', 'SUB', 'MUL'):
     graphs[k] = binary(k)
+  graphs['MUL (the same tensor twice)'] = ([X, O], [('MUL', 'MUL', [0, 0], [1])], [0], [1])
+  graphs['FULLY_CONNECTED feeding both operands of an unselected MUL'] = ([X, ('w', 1, (2, 2)), Y, O], [('FULLY_CONNECTED', 'FULLY_CONNECTED', [0, 1], [2]), ('MUL', 'MUL', [2, 2], [3])], [0], [3])
   missing = [o for o in oracles.SUPPORTED_OPS if o not in graphs]
   if missing:
     raise index.AnalysisError(f'{R}: no minimal graph for README operators {missing}')
@@ -1897,8 +1957,10 @@ def rule_operator_sweep(ctx, R: str):
     if opname not in OP:
       raise index.AnalysisError(f'{R}: operator {opname} of the README table is not a TFLOperationName member')
     ctx.instance(R)
-    for mode in ('srq', 'drq', 'wonly'):
-      applies, _ = tables.accepts(ctx, MM, OP[opname], CFG[mode])
+    for mode in ('srq', 'srqc', 'drq', 'wonly'):
+      if mode == 'srqc' and opname not in oracles.WEIGHT_QUANTIZED_DIM:
+        continue
+      applies, _ = tables.accepts(ctx, MM, OP[opname], CFG['srq' if mode == 'srqc' else mode])
       label = f'{gname}, * rule {mode}' + ('' if applies else ' (not supported for this operator: must stay float)')
       m, why = _pipeline_multi(ctx, R, [g], [('.*', opname, mode)])
       if m is None:
@@ -1912,7 +1974,7 @@ def rule_operator_sweep(ctx, R: str):
       if op is None:
         ctx.check(R, False, tg.node, tg, label, 'the operator disappeared from the graph')
         continue
-      md = mode if applies else None
+      md = ('srq' if mode == 'srqc' else mode) if applies else None
       bad_idx = [x for x in list(op.fields['inputs']) + list(op.fields['outputs']) + list(sg.fields['inputs']) + list(sg.fields['outputs']) if x != -1 and not (isinstance(x, int) and 0 <= x < len(T))]
       if bad_idx:
         ctx.check(R, False, tg.node, tg, label, f'the graph refers to tensors {bad_idx} that do not exist')
@@ -1959,4 +2021,43 @@ def rule_operator_sweep(ctx, R: str):
         spec_kind = next((s[1] for s in tensors if s[0].encode() == T[t].fields['name']), 0)
         if spec_kind in (0,) and tval(T[t].fields['type']) != F32:
           problems.append(f'graph input/output {T[t].fields["name"]} is not float although INPUT / OUTPUT is not selected')
+      # every other operator of the graph is not selected: it reads float tensors on every operand occurrence
+      for other in sg.fields['operators']:
+        if other.fields['label'] in (None, opname):
+          continue
+        for k_ in other.fields['inputs']:
+          if k_ != -1 and tval(T[k_].fields['type']) != F32:
+            problems.append(f'unselected operator {other.fields["label"]} reads {T[k_].fields["name"]} of type {tval(T[k_].fields["type"])}')
+      # the shared empty buffer stays empty; per-channel weights are annotated along the operator's channel dimension;
+      # a static-range bias is quantized with input scale x weight scale (per channel)
+      b0 = m.fields['buffers'][0].fields['data'] if m.fields['buffers'] else None
+      if b0 is not None:
+        problems.append('buffer 0 (the empty buffer every activation points at) now holds data')
+      if md == 'srq':
+        from sa.ndarr import NdArr  # pylint: disable=g-import-not-at-top
+        vals = lambda x: [float(v) for v in (x.data if isinstance(x, NdArr) else (x if isinstance(x, (list, tuple)) else [x]))]
+        q_of = lambda k: T[k].fields['quantization']
+        ins = op.fields['inputs']
+        roles = {tensors[o][0]: c for o, c in zip(g[1][0][2], ins)}
+        wq = q_of(roles['w']) if 'w' in roles else None
+        if mode == 'srqc' and wq is not None:
+          dim = oracles.WEIGHT_QUANTIZED_DIM[opname]
+          n_ch = T[roles['w']].fields['shape'][dim] if isinstance(T[roles['w']].fields['shape'], (list, tuple)) else None
+          sc = wq.fields['scale']
+          if isinstance(sc, absint_Opaque):
+            problems.append('weight scale not decided')
+          elif len(vals(sc)) != n_ch or wq.fields['quantizedDimension'] != dim:
+            problems.append(f'per-channel weight: {len(vals(sc))} scales along dimension {wq.fields["quantizedDimension"]!r}; expected {n_ch} scales along dimension {dim}')
+        if 'b' in roles and wq is not None and q_of(roles['b']) is not None:
+          act = next((c for o, c in zip(g[1][0][2], ins) if tensors[o][1] == 0), None)
+          aq = q_of(act) if act is not None else None
+          try:
+            a_s, w_s, b_s = vals(aq.fields['scale']), vals(wq.fields['scale']), vals(q_of(roles['b']).fields['scale'])
+            want_b = [a_s[0] * w for w in w_s]
+            if len(want_b) == 1 and len(b_s) > 1:
+              want_b = want_b * len(b_s)
+            if len(b_s) != len(want_b) or any(abs(x - y) > 1e-9 * max(abs(y), 1e-30) for x, y in zip(b_s, want_b)):
+              problems.append(f'bias scale {b_s} is not input scale x weight scale {want_b}')
+          except (AttributeError, TypeError, IndexError):
+            problems.append('bias / weight / input scales not decided')
       ctx.check(R, not problems, tg.node, tg, label, '; '.join(problems[:3]))
